@@ -141,6 +141,9 @@ func (x *Exec) named(st *State, v Val, hint string) Val {
 	st.assume(Eq(n, t))
 	nv := v
 	nv.L = []*Term{n}
+	if v.Max != nil {
+		st.assume(And(Le(IntC(0), n), Le(n, BigC(v.Max))))
+	}
 	return nv
 }
 
@@ -476,11 +479,75 @@ func (x *Exec) binop(st *State, op token.Token, a, b Val, rt types.Type, where s
 	case token.GEQ:
 		r = Ge(ta, tb)
 	case token.AND, token.OR, token.XOR, token.AND_NOT, token.SHL, token.SHR:
+		if rv, ok := x.disjointOr(op, a, b, rt, w); ok {
+			return rv
+		}
 		r = x.bitop(st, op, ta, tb, rt, w, signed)
+		out := Val{T: rt, L: []*Term{r}}
+		// bounds of the result for later linearisation
+		switch {
+		case op == token.SHL && tb.IsConst():
+			if m := maxOfVal(a); m != nil {
+				k := int(tb.C.Int64())
+				nm := new(big.Int).Lsh(m, uint(k))
+				if nm.BitLen() <= w {
+					out.Max, out.TZ = nm, a.TZ+k
+				}
+			}
+		case op == token.AND && tb.IsConst() && tb.C.Sign() >= 0:
+			out.Max = new(big.Int).Set(tb.C)
+			if m := maxOfVal(a); m != nil && m.Cmp(out.Max) < 0 {
+				out.Max = m
+			}
+		case op == token.SHR && tb.IsConst():
+			if m := maxOfVal(a); m != nil {
+				out.Max = new(big.Int).Rsh(m, uint(tb.C.Int64()))
+			}
+		}
+		return out
 	default:
 		panic("binop " + op.String())
 	}
 	return Val{T: rt, L: []*Term{r}}
+}
+
+// maxOfVal: an upper bound of a non-negative scalar value, from tracked bounds
+// or from its unsigned type.
+func maxOfVal(v Val) *big.Int {
+	if v.Max != nil {
+		return v.Max
+	}
+	if len(v.L) == 1 && v.L[0].IsConst() && v.L[0].C.Sign() >= 0 {
+		return v.L[0].C
+	}
+	if w, signed, ok := intInfo(v.T); ok && !signed {
+		return new(big.Int).Sub(Pow2(w), big.NewInt(1))
+	}
+	return nil
+}
+
+// disjointOr: a | b (or a ^ b, a + b) where b fits entirely below the known
+// trailing zero bits of a is exactly a + b.
+func (x *Exec) disjointOr(op token.Token, a, b Val, rt types.Type, w int) (Val, bool) {
+	if op != token.OR && op != token.XOR {
+		return Val{}, false
+	}
+	try := func(hi, lo Val) (Val, bool) {
+		m := maxOfVal(lo)
+		hm := maxOfVal(hi)
+		if m == nil || hm == nil || hi.TZ == 0 || m.BitLen() > hi.TZ {
+			return Val{}, false
+		}
+		sum := new(big.Int).Add(hm, m)
+		if sum.BitLen() > w {
+			return Val{}, false
+		}
+		return Val{T: rt, L: []*Term{Add(hi.L[0], lo.L[0])}, Max: sum, TZ: lo.TZ}, true
+	}
+	if v, ok := try(a, b); ok {
+		return v, true
+	}
+	return try(b, a)
 }
 
 func isString(t types.Type) bool {
@@ -742,7 +809,13 @@ func (x *Exec) convert(st *State, v Val, to types.Type, where string) Val {
 	_, _, toInt := intInfo(to)
 	switch {
 	case fromInt && toInt:
-		return Val{T: to, L: []*Term{x.convInt(v.Term(), from, to)}}
+		out := Val{T: to, L: []*Term{x.convInt(v.Term(), from, to)}}
+		if m := maxOfVal(v); m != nil {
+			if _, hi, ok := intRange(to); ok && m.Cmp(hi) <= 0 {
+				out.Max, out.TZ = m, v.TZ
+			}
+		}
+		return out
 	case fromInt && isFloat(to):
 		return Val{T: to, L: []*Term{App("f64.ofint", IntS, x.asInt(v.Term(), from))}}
 	case isFloat(from) && toInt:
